@@ -312,6 +312,7 @@ func runCrash(i int, rng *rand.Rand) (res worker.Result) {
 		res.Violate("crash:old-document-wrong", "state after the prefix: "+bad, wit(nil))
 		return
 	}
+	mOld := m.clone()
 	applyModel(m, sc.Op)
 	if bad := cmpModel(m, newDoc, newPresent, sc.Op.Addr); bad != "" {
 		res.Violate("crash:new-document-wrong", "state after the uninterrupted operation: "+bad, wit(nil))
@@ -403,6 +404,18 @@ func runCrash(i int, rng *rand.Rand) (res worker.Result) {
 		if ents, _ := filepath.Glob(filepath.Join(filepath.Dir(path), "oras_credstore_temp_*")); len(ents) > 0 {
 			res.Count("crash_temp_leftovers", int64(len(ents)))
 		}
+		// continuation: life goes on in the crashed directory (whatever temporary files the
+		// kill left stay there): reopen, shrink the document, grow it, shrink it again; after
+		// every operation the whole file must be exactly one JSON document holding the model state
+		base := m
+		if isOld && !isNew {
+			base = mOld
+		}
+		if bad, what := continueAfterCrash(path, base.clone(), pool, rng, &res); bad != "" {
+			ex["continuation"] = what
+			res.Violate(bad, fmt.Sprintf("killed before call %d (%s), then continued in the same directory: %s", k, calls[k-1], what), wit(ex))
+			return
+		}
 		enumerated++
 		res.Count("crash_points_enumerated", 1)
 	}
@@ -417,6 +430,54 @@ func runCrash(i int, rng *rand.Rand) (res worker.Result) {
 		res.Sample = shorten(wit(map[string]any{"phase": "crash", "calls": calls, "crash_points": count}))
 	}
 	return
+}
+
+// continueAfterCrash runs a few more operations through a fresh store on a crashed
+// directory and judges the file strictly after each of them.
+func continueAfterCrash(path string, m *model, pool []string, rng *rand.Rand, res *worker.Result) (key, what string) {
+	st, err := credentials.NewFileStore(path)
+	if err != nil {
+		return "crash:store-unopenable", "NewFileStore: " + err.Error()
+	}
+	m.saves = 0
+	var ops []crashOp
+	var keys []string
+	for k := range m.auths() {
+		keys = append(keys, k)
+	}
+	sort.Strings(keys)
+	if len(keys) > 0 {
+		ops = append(ops, crashOp{Kind: "delete", Addr: keys[rng.IntN(len(keys))]}) // a shorter document than any the crash left behind
+	}
+	a := pool[rng.IntN(len(pool))]
+	ops = append(ops, crashOp{Kind: "put", Addr: a, Cred: cred{U: "u", P: "p"}}, crashOp{Kind: "delete", Addr: a})
+	var done []string
+	for _, op := range ops {
+		done = append(done, op.Kind+" "+op.Addr)
+		if err := applyOp(st, op); err != nil {
+			return "crash:continuation-op-error", fmt.Sprintf("%v: %v", done, err)
+		}
+		applyModel(m, op)
+		doc, raw, mode, present, err := readDoc(path)
+		if err != nil {
+			return "crash:continuation-file-invalid", fmt.Sprintf("after %v the config file (%d bytes) is not exactly one JSON document: %v; tail %q", done, len(raw), err, tailBytes(raw, 120))
+		}
+		if bad := cmpModel(m, doc, present, op.Addr); bad != "" {
+			return "crash:continuation-file-wrong", fmt.Sprintf("after %v: %s", done, bad)
+		}
+		if present && m.saves > 0 && mode.Perm() != 0o600 {
+			return "crash:continuation-mode", fmt.Sprintf("after %v the file mode is %o", done, mode.Perm())
+		}
+		res.Count("crash_continuation_ops", 1)
+	}
+	return "", ""
+}
+
+func tailBytes(b []byte, n int) []byte {
+	if len(b) > n {
+		return b[len(b)-n:]
+	}
+	return b
 }
 
 func applyModel(m *model, op crashOp) {
